@@ -179,6 +179,17 @@ class Check:
 
 def site_of(body, bb=None, idx=None, line=None):
     s = {"file": body.file(), "function": body.key}
+    if bb is not None and bb < len(body.blocks) and body.blocks[bb].get("inl"):
+        s["function"] = body.blocks[bb]["inl"] + " (inlined into " + body.key + ")"
+        loc = None
+        blk = body.blocks[bb]
+        for st in blk["stmts"]:
+            if st.get("loc", {}).get("file"):
+                loc = st["loc"]
+                break
+        loc = loc or blk["term"].get("loc") or {}
+        if loc.get("file"):
+            s["file"] = loc["file"]
     if line is None and bb is not None:
         line = body.line_of(bb, idx)
     s["line"] = line
